@@ -37,6 +37,7 @@ from vf.ref import c36_tnetstring as T
 PROPERTY = "C37"
 LEVEL = "fault_enumeration"
 BUDGET = {"quick": (100_000, 15), "thorough": (20_000_000, 200)}
+MIN_CASES = {"quick": 2, "thorough": 2}  # one case = one file with every crash offset
 WORKERS = {"quick": 2, "thorough": 16}
 REQUIRED = ["truncated_read_exact_prefix", "stream_file_complete_after_hook", "explicit_save_file_complete", "files_fully_enumerated"]
 ENGINE = "direct"
